@@ -432,6 +432,41 @@ def interleave {α} [PNum α] (env : Env) (c : Cond) : List (List (Op α)) → W
     let rs := interleave env c rest { w1 with st := r.2 }
     (r.1 :: rs.1, rs.2)
 
+/-! ### operations that leave a cost-convergence condition alone -/
+
+/-- anything except a cost report, a new cost-convergence condition (it replaces the callback) and
+`terminate()` of impl `i` itself: evaluations and polls of any condition (including the cost-convergence
+condition), terminations of others, solution reports -/
+def CostQuiet {α} (i : Nat) : Op α → Prop
+  | .terminate c => c.impl ≠ i
+  | .newCostConv _ _ _ => False
+  | .cost _ => False
+  | _ => True
+
+theorem step_quiet {α} [PNum α] (env : Env) (w : World α) (op : Op α) (i : Nat) (hq : CostQuiet i op) :
+    (w.step env op).cb = w.cb ∧ (w.step env op).st.term i = w.st.term i := by
+  cases op with
+  | eval c => exact ⟨rfl, by simp only [World.step]; rw [eval_term]⟩
+  | terminate c =>
+    have hne : i ≠ c.impl := fun h => hq h.symm
+    exact ⟨rfl, by simp [World.step, terminate, upd, hne]⟩
+  | poll c => exact ⟨rfl, by simp only [World.step]; rw [poll_term]⟩
+  | addSoln a => exact ⟨rfl, rfl⟩
+  | clearSolns => exact ⟨rfl, rfl⟩
+  | newCostConv j win eps => exact absurd hq id
+  | cost c => exact absurd hq id
+
+theorem run_quiet {α} [PNum α] (env : Env) (i : Nat) (ops : List (Op α)) : ∀ (w : World α),
+    (∀ op ∈ ops, CostQuiet i op) → (w.run env ops).cb = w.cb ∧ (w.run env ops).st.term i = w.st.term i := by
+  induction ops with
+  | nil => intro w _; exact ⟨rfl, rfl⟩
+  | cons op rest ih =>
+    intro w hall
+    obtain ⟨h1, h2⟩ := step_quiet env w op i (hall op (List.mem_cons_self ..))
+    obtain ⟨g1, g2⟩ := ih (w.step env op) (fun o ho => hall o (List.mem_cons_of_mem _ ho))
+    simp only [World.run, List.foldl_cons]
+    exact ⟨g1.trans h1, g2.trans h2⟩
+
 /-! ### the polled form at thread-step granularity -/
 
 /-- invariant of the code as it is: a requested terminate is visible in `terminate_`, and every
